@@ -534,8 +534,26 @@ class Inliner:
                 if h is not None and h.is_gen and not s.orelse and not _has(s.body, ast.Break, stop=loop_stop):
                     has_cont = _has(s.body, ast.Continue, stop=loop_stop)
 
+                    copies = [0]
+
+                    def fresh_copy(stmts):
+                        """a copy of the consumer body; from the second copy on, temporaries of helpers inlined into it earlier get new
+                        instance numbers (two copies must not share temporaries)"""
+                        import re
+                        body_ = copy.deepcopy(stmts)
+                        copies[0] += 1
+                        if copies[0] > 1:
+                            ren = {}
+                            for st_ in body_:
+                                for n_ in ast.walk(st_):
+                                    if isinstance(n_, ast.Name) and re.search(r'__i\d+$', n_.id):
+                                        if n_.id not in ren:
+                                            ren[n_.id] = re.sub(r'__i\d+$', '', n_.id) + f'__i{self._instance()}'
+                                        n_.id = ren[n_.id]
+                        return body_
+
                     def on_yield(e, ys, s=s, has_cont=has_cont):
-                        body = copy.deepcopy(s.body)
+                        body = fresh_copy(s.body)
                         if has_cont:
                             # `continue` of the consumer means "go on after the yield": a one-iteration loop expresses exactly that
                             body = [ast.copy_location(ast.For(target=ast.Name(id='_inl_once', ctx=ast.Store()), iter=ast.Tuple(elts=[ast.Constant(value=None)], ctx=ast.Load()),
@@ -543,7 +561,7 @@ class Inliner:
                         return [ast.copy_location(ast.Assign(targets=[copy.deepcopy(s.target)], value=e), ys)] + body
                     def on_yield_from(e, ys, s=s, has_cont=has_cont):
                         # `yield from X` consumed by `for T in ..: BODY`  ==  `for T in X: BODY`
-                        return [ast.copy_location(ast.For(target=copy.deepcopy(s.target), iter=e, body=copy.deepcopy(s.body), orelse=[]), ys)]
+                        return [ast.copy_location(ast.For(target=copy.deepcopy(s.target), iter=e, body=fresh_copy(s.body), orelse=[]), ys)]
                     new = self.gen_body(h, s.iter, recv, on_yield, on_yield_from)
                     self.done.append((None, h.qual, 'generator loop'))
                     return self.block(new, depth + 1)
